@@ -17,6 +17,8 @@ import (
 	"github.com/cosmos/cosmos-sdk/crypto/keys/secp256k1"
 	"github.com/dvsekhvalnov/jose2go/base64url"
 	"github.com/multiformats/go-multibase"
+	gocid "github.com/ipfs/go-cid"
+	"github.com/multiformats/go-multihash"
 	"encoding/json"
 	didkeeper "github.com/SaoNetwork/sao/x/did/keeper"
 	didtypes "github.com/SaoNetwork/sao/x/did/types"
@@ -100,6 +102,20 @@ type FaultIn struct {
 }
 
 const GoodCid = "bafkreib3yn6x5ka3ubqk2kbo7tb5dolrgkyrcmtoqdyikh5hgoqqhgm5ey"
+
+// Cids: valid content ids for store requests (Cids[0] = GoodCid); the generators vary them so that a record carrying the
+// content id of the wrong version shows up in the state comparison.
+var Cids = func() []string {
+	out := []string{GoodCid}
+	for i := 1; i < 6; i++ {
+		h, err := multihash.Sum([]byte(fmt.Sprintf("saoverif-content-%d", i)), multihash.SHA2_256, -1)
+		if err != nil {
+			panic(err)
+		}
+		out = append(out, gocid.NewCidV1(gocid.Raw, h).String())
+	}
+	return out
+}()
 
 func (w *World) acct(i int) string {
 	if i < 0 || i >= len(w.C.Accounts) {
